@@ -87,6 +87,10 @@ func (idx *KVIndex) ListFields() []string {
 // AddDoc adds new document to the index
 func (idx *KVIndex) AddDoc(docID string, value map[string]interface{}) error {
 	err := idx.KV.Update(func(tx kvi.KVTransaction) error {
+		//if the document is already indexed, this is a replacement: drop the entries of the old version
+		if err := idx.removeDocTx(tx, docID); err != nil {
+			return err
+		}
 		return idx.AddDocTx(tx, docID, value)
 	})
 	if err != nil {
@@ -174,59 +178,76 @@ func (idx *KVIndex) termGetCount(tx kvi.KVTransaction, field string, ttype TermT
 	return count, nil
 }
 
-// RemoveDoc removes a document from the index: TODO
+// RemoveDoc removes a document from the index
 func (idx *KVIndex) RemoveDoc(docID string) error {
 	err := idx.KV.Update(func(tx kvi.KVTransaction) error {
 		log.WithFields(log.Fields{"document_id": docID}).Debug("KVIndex: deleting document")
-		docKey := DocKey(docID)
-		data, err := tx.Get(docKey)
-		if err != nil {
-			return nil
-		}
-		doc := Doc{}
-		err = proto.Unmarshal(data, &doc)
-		if err != nil {
-			return fmt.Errorf("failed to unmarshal document: %v", err)
-		}
-		for _, entryKey := range doc.Entries {
-			err = tx.Delete(entryKey)
-			if err != nil {
-				return fmt.Errorf("failed to delete entry %s: %v", entryKey, err)
-			}
+		return idx.removeDocTx(tx, docID)
+	})
+	if err != nil {
+		return fmt.Errorf("RemoveDoc call failed: %v", err)
+	}
+	return nil
+}
 
-			field, ttype, term, _ := EntryKeyParse(entryKey)
-			termKey := TermKey(field, ttype, term)
-			if count, err := idx.termGetCount(tx, field, ttype, term); err == nil {
-				if count > 0 {
-					count = count - 1
-				}
-				//if count == 0, then the term should be removed from the index
-				if count == 0 {
-					err = tx.Delete(termKey)
-					if err != nil {
-						return fmt.Errorf("failed to delete term key %s: %v", termKey, err)
-					}
-				} else {
-					buf := make([]byte, binary.MaxVarintLen64)
-					binary.PutUvarint(buf, count)
-					err = tx.Set(termKey, buf)
-					if err != nil {
-						return fmt.Errorf("failed to set term key %s: %v", termKey, err)
-					}
-				}
-			} else {
+// removeDocTx removes the entries of a document, and the document record, inside
+// a transaction provided by the caller. A document that is not indexed is ignored.
+func (idx *KVIndex) removeDocTx(tx kvi.KVTransaction, docID string) error {
+	docKey := DocKey(docID)
+	data, err := tx.Get(docKey)
+	if err != nil {
+		return nil
+	}
+	doc := Doc{}
+	err = proto.Unmarshal(data, &doc)
+	if err != nil {
+		return fmt.Errorf("failed to unmarshal document: %v", err)
+	}
+	for _, entryKey := range doc.Entries {
+		field, ttype, term, _ := EntryKeyParse(entryKey)
+		termKey := TermKey(field, ttype, term)
+		//the term count has to be read while the entry is still there: an invalidated
+		//count is recomputed from the entries
+		_, terr := tx.Get(termKey)
+		var count uint64
+		if terr == nil {
+			count, err = idx.termGetCount(tx, field, ttype, term)
+			if err != nil {
 				return fmt.Errorf("Termcount Error: %s", err)
 			}
 		}
 
-		err = tx.Delete(docKey)
+		err = tx.Delete(entryKey)
 		if err != nil {
-			return fmt.Errorf("failed to delete document %s: %v", docKey, err)
+			return fmt.Errorf("failed to delete entry %s: %v", entryKey, err)
 		}
-		return nil
-	})
+		if terr != nil {
+			//no term record: the field was removed from the index, along with its terms
+			continue
+		}
+
+		if count > 0 {
+			count = count - 1
+		}
+		//if count == 0, then the term should be removed from the index
+		if count == 0 {
+			err = tx.Delete(termKey)
+			if err != nil {
+				return fmt.Errorf("failed to delete term key %s: %v", termKey, err)
+			}
+		} else {
+			buf := make([]byte, binary.MaxVarintLen64)
+			binary.PutUvarint(buf, count)
+			err = tx.Set(termKey, buf)
+			if err != nil {
+				return fmt.Errorf("failed to set term key %s: %v", termKey, err)
+			}
+		}
+	}
+
+	err = tx.Delete(docKey)
 	if err != nil {
-		return fmt.Errorf("RemoveDoc call failed: %v", err)
+		return fmt.Errorf("failed to delete document %s: %v", docKey, err)
 	}
 	return nil
 }
